@@ -1518,6 +1518,22 @@ let run_pc_pst13 c =
       let nops = int1 c "nops" in
       let recs = Array.make nops None in
       let tape_of k = if has c k then fs_of c k else [] in
+      let brecs = Array.make nops None in
+      let lab i = nlabel (int1 c (Printf.sprintf "label.%d" i)) in
+      let cmpz a b = Z.compare (ofz a) (ofz b) in
+      let rec cmpl a b = match a, b with [], [] -> 0 | [], _ -> -1 | _, [] -> 1 | x :: a', y :: b' -> let r = cmpz x y in if r <> 0 then r else cmpl a' b' in
+      let pst_qs_ev tr3 deltas drop =
+        let qs = List.sort_uniq (fun (l1, (p1, z1)) (l2, (p2, z2)) ->
+            let r = Z.compare l1 l2 in if r <> 0 then r else let r = Z.compare p1 p2 in if r <> 0 then r else cmpl z1 z2)
+            (List.map (fun (i, zl, pj) -> (lab i, (nlabel zl, pts.(pj)))) tr3) in
+        let tbl = Hashtbl.create 16 in
+        List.iter (fun (i, _, pj) -> Hashtbl.replace tbl (Z.to_string (lab i) ^ "@" ^ String.concat "," (fs_to pts.(pj)))
+                      ((lab i, pts.(pj)), PST13.eval_mpoly fo pts.(pj) polys.(i))) tr3;
+        let ev = Hashtbl.fold (fun _ v acc -> v :: acc) tbl [] in
+        let evm = List.sort (fun ((l1, z1), _) ((l2, z2), _) -> let r = Z.compare l1 l2 in if r <> 0 then r else cmpl z1 z2) ev in
+        let evm = List.mapi (fun idx (kx, v) -> (kx, List.fold_left (fun acc (kk, dd) -> if kk = idx then fo.Field.fadd acc dd else acc) v deltas)) evm in
+        let evm = match drop with Some kk -> List.filteri (fun idx _ -> idx <> kk) evm | None -> evm in
+        (qs, evm) in
       let chk cml z values pf chal = match PST13H.ph_check fo nvn betas cml z values pf chal with
         | Result.Ok (b, _) -> Result.Ok b | Result.Err e -> Result.Err e | Result.Panic -> Result.Panic in
       for t = 0 to nops - 1 do
@@ -1537,6 +1553,31 @@ let run_pc_pst13 c =
              obs (k "evals") "F" (fs_to values);
              obs1 (k "check") "S" (decision (chk (List.map (fun i -> fst cs.(i)) sel) z values pf (tape_of (k "vchal"))));
              recs.(t) <- Some (pj, sel, values, pf)
+           | _ -> ())
+        | [ "batch"; sq ] ->
+          let chal = tape_of (k "chal") and vchal = tape_of (k "vchal") in
+          let tr3 = triples3 (get c ("qs." ^ sq)) in
+          let ident = List.init n (fun i -> i) in
+          let pperm = if has c (k "pperm") then List.map int_of_string (get c (k "pperm")) else ident in
+          let vperm = if has c (k "vperm") then List.map int_of_string (get c (k "vperm")) else ident in
+          let (qs, evm) = pst_qs_ev tr3 [] None in
+          obs (k "evals") "F" (fs_to (List.map snd evm));
+          let items = List.map (fun i -> (lab i, (polys.(i), snd cs.(i)))) pperm in
+          let r = PST13Batch.pst_batch_open fo nvn sn betas items qs chal in
+          obs1 (k "open") "S" (class_of r);
+          (match r with
+           | Result.Ok (pfl, _) ->
+             obs1 (k "nproofs") "N" (string_of_int (List.length pfl));
+             List.iteri (fun g pf ->
+                 obs (Printf.sprintf "pf.%d.%d.w" t g) "L:pbasis" (dash (List.map gv_tok pf.PST13H.pp_w));
+                 obs1 (Printf.sprintf "pf.%d.%d.rv" t g) "F" (match pf.PST13H.pp_rv with Some r -> f_to_str r | None -> "none")) pfl;
+             let cml = List.map (fun i -> (lab i, fst cs.(i))) vperm in
+             (match PST13Batch.pst_batch_check fo nvn betas cml qs evm pfl vchal (tape_of (k "vtape")) with
+              | Result.Ok ((b, _), draws) ->
+                obs1 (k "check") "S" (if b then "accept" else "reject");
+                obs1 (k "check_draws") "N" (string_of_int (int_of_nat draws))
+              | _ -> obs1 (k "check") "S" "refused");
+             brecs.(t) <- Some (tr3, pfl, vperm)
            | _ -> ())
         | _ -> ()
       done;
@@ -1584,7 +1625,48 @@ let run_pc_pst13 c =
                | _ -> ok := false);
               if !ok then
                 obs1 name "S" (decision (chk (List.map (fun i -> cma.(i)) !sel) pts.(!pj) !values !pf mchal))
-            | None -> ()
+            | None ->
+              (match brecs.(t) with
+               | Some (tr3, pfl, vperm) ->
+                 let tr3 = ref tr3 and pfl = ref pfl and vperm = ref vperm and ok = ref true in
+                 let deltas = ref [] and drop = ref None in
+                 (match kind with
+                  | "value" -> deltas := [ (int_of_string (arg 0), f_of_str (arg 1)) ]
+                  | "cancel" -> let dd = f_of_str (arg 2) in
+                    deltas := [ (int_of_string (arg 0), dd); (int_of_string (arg 1), fo.Field.fopp dd) ]
+                  | "comm_swap" -> let i = int_of_string (arg 0) and j = int_of_string (arg 1) in cma.(i) <- fst cs.(j)
+                  | "proofs" ->
+                    let a () = int_of_string (arg 1) and b () = int_of_string (arg 2) in
+                    let len = List.length !pfl in
+                    (match arg 0 with
+                     | "perm" -> if a () < len && b () < len then begin
+                         let x = List.nth !pfl (a ()) and y = List.nth !pfl (b ()) in
+                         pfl := List.mapi (fun i p -> if i = a () then y else if i = b () then x else p) !pfl end else ok := false
+                     | "trunc" -> if a () < len then pfl := List.filteri (fun i _ -> i < a ()) !pfl else ok := false
+                     | "dup" -> if a () < len && b () < len then begin
+                         let x = List.nth !pfl (a ()) in pfl := List.mapi (fun i p -> if i = b () then x else p) !pfl end else ok := false
+                     | "empty" -> pfl := []
+                     | "extend" -> if len > 0 then pfl := !pfl @ [ List.nth !pfl (len - 1) ] else ok := false
+                     | _ -> ok := false)
+                  | "sponge_pre" -> ()
+                  | "vperm" -> vperm := List.map int_of_string args
+                  | "drop_query" -> let kk = int_of_string (arg 0) in
+                    if kk < List.length !tr3 then tr3 := List.filteri (fun i _ -> i <> kk) !tr3 else ok := false
+                  | "drop_eval" -> drop := Some (int_of_string (arg 0))
+                  | "drop_comm" -> let i = int_of_string (arg 0) in vperm := List.filter (fun x -> x <> i) !vperm
+                  | _ -> ok := false);
+                 if !ok then begin
+                   let (qs, evm0) = pst_qs_ev !tr3 [] None in
+                   let nk = List.length evm0 in
+                   if List.exists (fun (kk, _) -> kk >= nk) !deltas || (match !drop with Some kk -> kk >= nk | None -> false) then ()
+                   else begin
+                     let (_, evm) = pst_qs_ev !tr3 !deltas !drop in
+                     let cml = List.map (fun i -> (lab i, cma.(i))) !vperm in
+                     obs1 name "S" (decision (match PST13Batch.pst_batch_check fo nvn betas cml qs evm !pfl mchal (tape_of (Printf.sprintf "vtape.%d" t)) with
+                         | Result.Ok ((b, _), _) -> Result.Ok b | Result.Err e -> Result.Err e | Result.Panic -> Result.Panic))
+                   end
+                 end
+               | None -> ())
           end)
         (indexed c "mut")
     end
